@@ -351,11 +351,22 @@ class HttpDigestAuthorization(object):
         return digest
 
 
+def _quoted_string_content(value):
+    """Return value as it has to stand between the quotes of a quoted-string.
+
+    A backslash or a double quote inside a quoted-string is written as a
+    quoted-pair (:rfc:`7230#section-3.2.6`); the reader takes the
+    backslashes off again (``parse_http_list`` does, for the
+    ``Authorization`` header the client sends back).
+    """
+    return value.replace('\\', '\\\\').replace('"', '\\"')
+
+
 def _get_charset_declaration(charset):
     global FALLBACK_CHARSET
     charset = charset.upper()
     return (
-        (', charset="%s"' % charset)
+        (', charset="%s"' % _quoted_string_content(charset))
         if charset != FALLBACK_CHARSET
         else ''
     )
@@ -382,8 +393,12 @@ def www_authenticate(
 
     charset_declaration = _get_charset_declaration(accept_charset)
 
+    # the realm is text chosen by the administrator: it is sent as a
+    # quoted-string; the nonce above and H(A1) are computed from the realm
+    # itself, which is what the client gets back by unquoting
     return HEADER_PATTERN % (
-        realm, nonce, algorithm, qop, stale_param, charset_declaration,
+        _quoted_string_content(realm), nonce, algorithm, qop,
+        stale_param, charset_declaration,
     )
 
 
